@@ -154,4 +154,77 @@ theorem writeAlls_spec (evs : List WrEv) (bufs : List Bytes) :
         rw [List.append_assoc, h1, ← hfl]
         simp [← List.append_assoc, List.take_append_drop]
 
+theorem encodeAll_append (codec : Codec) (a b : List Bytes) :
+    encodeAll codec (a ++ b) = encodeAll codec a ++ encodeAll codec b := by
+  induction a with
+  | nil => simp [encodeAll]
+  | cons m a ih => simp [encodeAll, ih]
+
+def OpNoErr : SinkOp → Prop
+  | .send _ evs _ => NoErr evs
+  | .flush evs _ => NoErr evs
+
+/-- The stream invariant of the sink: handed over ++ still queued = frames of the accepted messages. -/
+def SinkInv (codec : Codec) (r : SinkRun) : Prop :=
+  r.wire ++ queued r.st = encodeAll codec r.accepted ∧ WInv r.st
+
+theorem sinkStep_inv (codec : Codec) (r : SinkRun) (op : SinkOp) (h : SinkInv codec r) (hne : OpNoErr op) :
+    SinkInv codec (sinkStep codec r op) := by
+  obtain ⟨hw, hi⟩ := h
+  cases op with
+  | flush evs fl =>
+    obtain ⟨h1, _, h3⟩ := pollFlush_spec evs r.st fl hne
+    simp only [sinkStep]
+    refine ⟨?_, h3 hi⟩
+    show (r.wire ++ (pollFlush evs r.st fl).2.2) ++ queued (pollFlush evs r.st fl).2.1 = _
+    rw [List.append_assoc, h1, hw]
+  | send item evs fl =>
+    have hready : (pollReady r.st evs fl).2.2 ++ queued (pollReady r.st evs fl).2.1 = queued r.st ∧
+        (WInv r.st → WInv (pollReady r.st evs fl).2.1) := by
+      unfold pollReady
+      split
+      · obtain ⟨h1, _, h3⟩ := pollFlush_spec evs r.st fl hne; exact ⟨h1, h3⟩
+      · exact ⟨by simp, fun h => h⟩
+    obtain ⟨h1, h3⟩ := hready
+    simp only [sinkStep]
+    cases hp : pollReady r.st evs fl with
+    | mk o rest =>
+      obtain ⟨st', out⟩ := rest
+      rw [hp] at h1 h3
+      simp only at h1 h3
+      have hbase : (r.wire ++ out) ++ queued st' = encodeAll codec r.accepted := by
+        rw [List.append_assoc, h1, hw]
+      cases o with
+      | ready =>
+        simp only []
+        cases hs : startSend codec st' item with
+        | mk res st'' =>
+          cases res with
+          | ok =>
+            obtain ⟨hq, _, hwi⟩ := startSend_spec codec st' st'' item hs
+            refine ⟨?_, hwi (h3 hi)⟩
+            show (r.wire ++ out) ++ queued st'' = encodeAll codec (r.accepted ++ [item])
+            rw [hq, ← List.append_assoc, hbase, encodeAll_append]
+            simp [encodeAll]
+          | refused =>
+            have : st'' = st' := by
+              unfold startSend at hs
+              cases codec <;> simp only [] at hs <;> split at hs <;> simp at hs <;> exact hs.symm
+            subst this
+            exact ⟨hbase, h3 hi⟩
+      | pending => exact ⟨hbase, h3 hi⟩
+      | err => exact ⟨hbase, h3 hi⟩
+
+theorem sinkRun_inv (codec : Codec) (ops : List SinkOp) (hne : ∀ op ∈ ops, OpNoErr op) :
+    SinkInv codec (sinkRun codec ops) := by
+  unfold sinkRun
+  have : ∀ r, SinkInv codec r → SinkInv codec (ops.foldl (sinkStep codec) r) := by
+    induction ops with
+    | nil => intro r h; exact h
+    | cons op ops ih =>
+      intro r h
+      exact ih (fun o ho => hne o (List.mem_cons_of_mem _ ho)) _
+        (sinkStep_inv codec r op h (hne op (List.mem_cons_self)))
+  exact this _ ⟨by simp [SinkRun.init, WState.init, queued, encodeAll], winv_init⟩
+
 end Litep2pVerif.Substream
